@@ -412,11 +412,14 @@ func typeContains(T, E types.Type) bool {
 
 // typeDisjoint: a pointer/slice of element type E that came from unknown memory cannot
 // point into a local variable whose type does not contain an E (Go allocations are typed).
-func (e *Exec) typeDisjoint(st State, base, nslots *Term, E types.Type) State {
+func (e *Exec) typeDisjoint(st State, base, nslots *Term, E types.Type, belowEntry bool) State {
 	c := e.c
 	for _, r := range e.locals {
 		if r.T == nil || typeContains(r.T, E) {
 			continue
+		}
+		if belowEntry && r.fresh {
+			continue // already separated by the allocation frontier
 		}
 		st = st.assume(c.Or(c.Ule(c.Add(base, nslots), r.base), c.Ule(c.Add(r.base, c.Const(64, r.n)), base)))
 	}
@@ -465,8 +468,8 @@ func (e *Exec) assumeValid(st State, T types.Type, v Val, input bool) State {
 		st = st.assume(c.Or(c.Eq(cp, c.Const(64, 0)), c.And(c.Ule(c.Const(64, 1), base), c.Ule(base, lim), c.Ule(end, lim))))
 		if input {
 			e.registerInput(base, cp)
-		} else if lim != e.brk0 {
-			st = e.typeDisjoint(st, base, c.Mul(cp, c.Const(64, es)), t.Elem())
+		} else {
+			st = e.typeDisjoint(st, base, c.Mul(cp, c.Const(64, es)), t.Elem(), lim == e.brk0)
 		}
 	case *types.Basic:
 		if t.Info()&types.IsString != 0 {
@@ -492,11 +495,16 @@ func (e *Exec) assumeValid(st State, T types.Type, v Val, input bool) State {
 			lim = e.brk0
 		}
 		st = st.assume(c.Or(c.Eq(v[0], c.Const(64, 0)), c.And(c.Ule(c.Const(64, 1), v[0]), c.Ule(v[0], lim), c.Ule(c.Add(v[0], c.Const(64, n)), lim))))
-		if !input && lim != e.brk0 {
-			st = e.typeDisjoint(st, v[0], c.Const(64, n), t.Elem())
+		if !input {
+			st = e.typeDisjoint(st, v[0], c.Const(64, n), t.Elem(), lim == e.brk0)
 		}
 		if input {
 			e.registerInput(v[0], c.Const(64, n))
+			if r := e.regions[v[0]]; r != nil && r.T == nil {
+				r.T = t.Elem()
+				r.n = n
+				e.locals = append(e.locals, r)
+			}
 		}
 	case *types.Interface:
 		if !input && !unknownMem(v[0]) {
